@@ -88,7 +88,7 @@ def cmp_util(case, impl_list, reply, kind):
     return None
 
 
-def oracle(case, est=None):
+def _oracle(case, est=None):
     """per-episode-vs-whole and time-window locality, directly on the implementation (float data)"""
     try:
         if est is None:
@@ -129,6 +129,13 @@ def oracle(case, est=None):
     return None
 
 
+def oracle(case, est=None):
+    try:
+        return _oracle(case, est)
+    except Exception as ex:
+        return f'transform / inverse_transform raised {type(ex).__name__}: {ex}'
+
+
 def run(ctx):
     ctx.rule = ('layout-heavy generator: 1..4 episodes, lengths min_samples_..+4, labels like [7,0,3], block order '
                 'permuted, rows interleaved; random trees of all kinds; observations: row provenance '
@@ -153,7 +160,15 @@ def run(ctx):
             ctx.count('rejected:' + st.err_enum(e))
             continue
         X = st.X_of(c)
-        Xt = est.transform(X)
+        try:
+            Xt = est.transform(X)
+            est.inverse_transform(Xt)
+        except Exception as ex:
+            ctx.mismatch(f'implementation raised {type(ex).__name__}: {ex} (model returns a matrix)', c, None, None)
+            why = oracle(st.float_case(ctx.rng, c))
+            if why:
+                ctx.fail(why, c, {'kinds': sorted(pipes.kinds_in(c['spec']))})
+            continue
         l1, cells, reg = st.value_line('tr', c, est)
         l2, _, _ = st.value_line('tr', c, est, mode='dep')
         # inverse provenance: ids over the LIFTED matrix
